@@ -119,6 +119,10 @@ def parse_directive_text(
         options = result.options
         body_lines = result.content.splitlines()
         content_offset = len(content.splitlines()) - len(body_lines)
+        if has_options_block and result.content.endswith("\n"):
+            # a trailing blank line of the content is not retained in the body,
+            # and so must not be counted as a line before the body
+            content_offset -= 1
     else:
         parse_warnings = []
         has_options_block = False
